@@ -181,6 +181,7 @@ SHAPES = [
 
 class LwspHarness(Harness):
   name = "c13_lwsp"
+  thorough_only_for = ("C18",)   # many paths, no reader/writer involved: C18 quick tier skips it
   properties = ("C13", "C18")
   functions = ("isd:_process_lwsp", "isd:_construct_text_list", "isd:_prune_empty_spans")
   assumptions = ("text content is selected by solver-decided selector variables from the finite string menu (no numeric "
